@@ -10,6 +10,21 @@ fn check(files: &[(&str, &str)]) {
         let d = a.diagnostics();
         let mut out = vec![];
         for (f, ds) in d.iter() { for x in ds { out.push((ids.iter().position(|i| i == f), x.location.file == *f, usize::from(x.location.range.start()), usize::from(x.location.range.end()), x.message.clone())); } }
+        // the other results that carry ranges: symbols with children, folding ranges, links, hint positions of every file
+        fn syms(v: &[ide::handlers::document_symbol::DocumentSymbol], idx: usize, out: &mut Vec<(Option<usize>, bool, usize, usize, String)>) {
+            for s in v { out.push((Some(idx), true, usize::from(s.range.start()), usize::from(s.range.end()), format!("document symbol {}", s.name))); syms(&s.children, idx, out); }
+        }
+        for (idx, id) in ids.iter().enumerate() {
+            syms(&a.document_symbol(*id).unwrap_or_default(), idx, &mut out);
+            for f in a.folding_range(*id).unwrap_or_default() { out.push((Some(idx), true, usize::from(f.range.start()), usize::from(f.range.end()), "folding range".into())); }
+            for l in a.document_link(*id).unwrap_or_default() { out.push((Some(idx), true, usize::from(l.range.start()), usize::from(l.range.end()), "document link".into())); }
+            let len = refs[idx].1.len() as u32;
+            if len > 0 {
+                for h in a.inlay_hint(ide::file_system::FileRange::new(*id, syntax::parser::TextRange::new(0.into(), len.into()))).unwrap_or_default() {
+                    out.push((Some(idx), true, usize::from(h.position), usize::from(h.position), format!("inlay hint {}", h.label)));
+                }
+            }
+        }
         out
     });
     // a panic or a hang of the analysis is C02 / C03's subject, not a range that is invalid: no verdict from this input
@@ -28,4 +43,9 @@ fn check(files: &[(&str, &str)]) {
 #[test] fn diagnostic_after_a_nested_include_stays_in_its_file() {
     // main -> a -> b: what follows `include "b.td"` in a.td belongs to a.td (main.td is shorter than the offsets involved)
     check(&[("/m.td", "include \"a.td\"\n"), ("/a.td", "include \"b.td\"\n// padding padding padding padding\nclass A { int x = undefined_in_a; }\n"), ("/b.td", "class B;\n")]);
+}
+#[test] fn what_follows_a_repeated_include_stays_in_its_file() {
+    // types.td is included by main.td and again by regs.td: the rest of regs.td belongs to regs.td (main.td is much shorter)
+    check(&[("/main.td", "class M;\ninclude \"types.td\"\ninclude \"regs.td\"\n"), ("/types.td", "class Ty<int width>;\n"),
+            ("/regs.td", "include \"types.td\"\n// register classes of the target, padding padding padding\nclass RegClass<Ty ty> { Ty Type = ty; }\ndef Bad : Missing;\n")]);
 }
